@@ -16,7 +16,8 @@
 
 using namespace sim;
 
-extern "C" volatile uint32_t sim_block_once_calls, sim_block_guard_calls, sim_block_mutex_calls, sim_block_waits;  // blockwrap.cpp
+extern "C" volatile uint32_t sim_block_once_calls, sim_block_guard_calls, sim_block_mutex_calls, sim_block_waits,
+    sim_block_futex_waits, sim_block_futex_wakes, sim_block_futex_lost;  // blockwrap.cpp
 
 static const uint32_t kUnlimited = 0xFFFFFFFFu;
 static const uint64_t kSpinJump = 1000000000ull;  // == kTablesSpinLimit
@@ -166,6 +167,101 @@ static void thread_main(int tid, const std::vector<Op>* ops, int utype, ThreadRe
   sch_thread_end(tid);
 }
 
+// ---- exit probe (mode x) ---------------------------------------------------------
+// "Process exit at an arbitrary point": main returns while another thread is still making calls.  The Unicode tables are
+// documented as process-lifetime data that is never freed; a thread that is still inside (or enters) the library while
+// static destructors run must keep getting right answers.  One probe = one process: the tables are unpacked, a worker
+// thread is parked, main calls exit(); the object below is constructed before every ordinary static (init_priority 101)
+// and therefore destroyed after all of them - its destructor wakes the worker, which performs the plan's operations and
+// compares them with the answers computed before exit.  AddressSanitizer reports a use of freed tables.
+#include <linux/futex.h>
+#include <sys/syscall.h>
+#include <unistd.h>
+extern "C" long __real_syscall(long number, ...);
+namespace {
+struct ExitProbeState {
+  bool armed = false;
+  Plan plan;
+  std::vector<Op> ops;
+  std::vector<std::string> expected, got;
+  volatile int go = 0, done = 0;
+  std::thread worker;
+  double t0 = 0;
+} * g_xp = nullptr;
+
+void xp_wait(volatile int* w) {
+  while (__atomic_load_n(w, __ATOMIC_SEQ_CST) == 0) __real_syscall(SYS_futex, w, FUTEX_WAIT_PRIVATE, 0, nullptr, nullptr, 0);
+}
+void xp_wake(volatile int* w) {
+  __atomic_store_n(w, 1, __ATOMIC_SEQ_CST);
+  __real_syscall(SYS_futex, w, FUTEX_WAKE_PRIVATE, 1, nullptr, nullptr, 0);
+}
+struct ExitProbe {
+  ~ExitProbe() {
+    if (!g_xp || !g_xp->armed) return;
+    ExitProbeState& x = *g_xp;
+    xp_wake(&x.go);
+    xp_wait(&x.done);
+    uint64_t h = 0xcbf29ce484222325ull;
+    std::string why;
+    for (size_t i = 0; i < x.got.size(); i++) {
+      h = fnv1a(x.got[i], h);
+      if (x.got[i] != x.expected[i] && why.empty())
+        why = x.ops[i].pretty() + " called while static destructors were running returned {" + pretty_snap(x.got[i]).substr(0, 200) +
+              "} but returned {" + pretty_snap(x.expected[i]).substr(0, 200) + "} before exit";
+    }
+    const bool viol = !why.empty();
+    if (g_engine_replay) {
+      if (viol) printf("DETAIL %s\n", why.c_str());
+      printf("RESULT verdict=%s class=%s sig=%s hash=%016llx stable=1\n", viol ? "violation" : "ok", viol ? "wrong-result-during-exit" : "-",
+             viol ? "exit-probe" : "-", (unsigned long long)h);
+      fflush(stdout);
+      _exit(viol ? 1 : 0);
+    }
+    if (viol) {
+      std::string path = g_engine_outdir + "/viol_e1_C13_" + std::to_string(x.plan.seed) + "_" + std::to_string(x.plan.run) + ".replay";
+      x.plan.save(path);
+      printf("DETAIL %s\n", why.c_str());
+      printf("R %llu %016llx VIOL nt=1 ops=%016llx class=wrong-result-during-exit sig=exit-probe stable=1 file=%s\n", (unsigned long long)x.plan.run,
+             (unsigned long long)h, (unsigned long long)x.plan.ops_hash(), path.c_str());
+    } else {
+      printf("R %llu %016llx ok nt=1 ops=%016llx sch=exit steps=0\n", (unsigned long long)x.plan.run, (unsigned long long)h, (unsigned long long)x.plan.ops_hash());
+    }
+    printf("STAT runs 1\nSTAT nontrivial_runs 1\nSTAT exit_probe.calls_during_static_destruction %llu\nDONE 1 %.3f\n", (unsigned long long)x.got.size(), now_s() - x.t0);
+    fflush(stdout);
+    _exit(0);
+  }
+};
+ExitProbe g_exit_probe_object __attribute__((init_priority(101)));
+
+[[noreturn]] void run_exit_probe(const Plan& p) {
+  g_xp = new ExitProbeState();
+  ExitProbeState& x = *g_xp;
+  x.plan = p;
+  x.t0 = now_s();
+  x.ops = p.thread_ops(0);
+  hooks().off();
+  g_yield_fn = nullptr;
+  g_spin_fn = nullptr;
+  ada::set_max_input_length(0xFFFFFFFFu);
+  (void)ada::idna::to_ascii("\xc3\xa9");
+  {
+    Hist<ada::url_aggregator> h;
+    for (auto& op : x.ops) x.expected.push_back(exec_op(op, h).text);
+  }
+  x.worker = std::thread([&x] {
+    xp_wait(&x.go);
+    Hist<ada::url_aggregator> h;
+    for (auto& op : x.ops) x.got.push_back(exec_op(op, h).text);
+    xp_wake(&x.done);
+    for (;;) pause();  // never returns: the process ends in the probe's destructor
+  });
+  x.worker.detach();
+  x.armed = true;
+  exit(0);  // static destructors run now; g_exit_probe_object's runs last
+}
+}  // namespace
+
 // ---- workload -----------------------------------------------------------------
 static const char* const kIdnHosts[] = {"m\xc3\xbcnchen.de", "\xc3\xa9.com", "xn--9ca.com", "ex%41mple.com", "\xe3\x8c\x96.jp",
                                         "b\xc3\xbc""cher.example", "XN--MNCHEN-3YA.de", "a\xe3\x80\x82""b.c", "\xef\xbc\xa1.com",
@@ -253,13 +349,28 @@ static Plan generate(uint64_t seed, uint64_t run, const std::map<std::string, st
   p.cfg["fault"] = fault;
   int strategy = r.below(SCH_NSTRATEGIES);
   if (fault == "stall") strategy = SCH_STALL;
+  const bool ta_after_stall = fault == "ta" && r.chance(1, 3);  // the winner is stalled first, then its allocation fails
+  if (ta_after_stall) strategy = SCH_STALL;
   p.set("strategy", strategy);
   p.set("sseed", r.next() & 0xffffffff);
   static const uint32_t kSticky[] = {0, 64, 128, 200};
   p.set("sticky256", pick(r, kSticky));
   p.set("pct_depth", r.range(1, 3));
-  p.set("stall_steps", fault == "stall" ? r.range(50, 5000) : r.range(0, 200));
+  p.set("stall_steps", fault == "stall" ? r.range(50, 5000) : ta_after_stall ? r.range(300, 3000) : r.range(0, 200));
   p.set("quantum", r.range(1, 6));
+  if (mode == "x") {
+    int k = r.range(1, 4);
+    for (int i = 0; i < k; i++) {
+      // parse / can_parse / IDNA only: URLPattern goes through std::regex and the C++ locale, whose own statics are being
+      // destroyed at this point - that would test libstdc++'s exit behaviour, not ada's
+      Op op = r.chance(3, 4) ? gen_table_op(r) : gen_plain_op(r);
+      for (int tries = 0; tries < 20 && !(op.kind == OP_PARSE || op.kind == OP_CANPARSE || op.kind == OP_IDNA); tries++)
+        op = r.chance(3, 4) ? gen_table_op(r) : gen_plain_op(r);
+      if (!(op.kind == OP_PARSE || op.kind == OP_CANPARSE || op.kind == OP_IDNA)) op = make_idna(I_TO_ASCII, "m\xc3\xbcnchen.de");
+      p.ops.emplace_back(0, op);
+    }
+    return p;
+  }
   if (mode == "a") {
     int n = r.chance(1, 12) ? 1 : r.range(2, uint32_t(maxthreads));
     p.set("reset_tables", r.chance(7, 8) ? 1 : 0);
@@ -419,6 +530,7 @@ static Result execute(const Plan& p, Stats& st) {
   const std::string fault = p.cfg_s("fault", "none");
   const int n = p.nthreads();
   if (n == 0 || n > SCH_MAX_THREADS) return res;
+  if (mode == "x") run_exit_probe(p);  // does not return: the verdict is printed from a static destructor
   bool ta = false;
   g_spin_faults.clear();
   for (auto& f : p.faults) {
@@ -472,6 +584,7 @@ static Result execute(const Plan& p, Stats& st) {
   g_spin_fn = spin_fn;
   g_premature_ready = 0;
   uint32_t tsan0 = g_tsan_reports;
+  const uint32_t futex_lost0 = sim_block_futex_lost;
   std::vector<ThreadRec> recs(n);
   {
     std::vector<std::thread> th;
@@ -488,8 +601,9 @@ static Result execute(const Plan& p, Stats& st) {
     if (status == SCH_OVER_BUDGET) {
       res.violation = true;
       res.vclass = "liveness-budget";
+      if (sim_block_futex_lost != futex_lost0) res.detail = "a thread blocked in a futex wait (std::atomic::wait) was never woken; ";
       res.sig = "steps>" + std::to_string(cfg.budget);
-      res.detail = "operations did not complete within " + std::to_string(cfg.budget) + " scheduler steps (fair drain engaged afterwards)";
+      res.detail += "operations did not complete within " + std::to_string(cfg.budget) + " scheduler steps (fair drain engaged afterwards)";
     }
   }
   g_yield_fn = nullptr;
@@ -568,10 +682,12 @@ static Result execute(const Plan& p, Stats& st) {
   st.add("sim_spin_iterations", spin_adv);
   st.add("witness_runs", g_witness_runs.exchange(0));
   {  // blocking primitives met by simulated threads (zero on the pinned tree: ada uses none)
-    static uint32_t last[4] = {0, 0, 0, 0};
-    uint32_t now[4] = {sim_block_once_calls, sim_block_guard_calls, sim_block_mutex_calls, sim_block_waits};
-    static const char* const nm[4] = {"block.once_calls", "block.static_guard_calls", "block.mutex_lock_calls", "block.waits_turned_into_yields"};
-    for (int i = 0; i < 4; i++) {
+    static uint32_t last[7] = {0, 0, 0, 0, 0, 0, 0};
+    uint32_t now[7] = {sim_block_once_calls, sim_block_guard_calls, sim_block_mutex_calls, sim_block_waits,
+                       sim_block_futex_waits, sim_block_futex_wakes, sim_block_futex_lost};
+    static const char* const nm[7] = {"block.once_calls", "block.static_guard_calls", "block.mutex_lock_calls", "block.waits_turned_into_yields",
+                                      "block.futex_waits", "block.futex_wakes", "block.futex_lost_wakeups"};
+    for (int i = 0; i < 7; i++) {
       if (now[i] != last[i]) st.add(nm[i], now[i] - last[i]);
       last[i] = now[i];
     }
